@@ -14,6 +14,8 @@ pub struct DocumentState {
     pub language_id: Option<String>,
     pub ignored_lints: IgnoredLints,
     pub url: Url,
+    /// Version of the text the document was last updated from (`textDocument.version`).
+    pub version: Option<i32>,
 }
 
 impl DocumentState {
@@ -93,6 +95,7 @@ impl Default for DocumentState {
             language_id: Default::default(),
             ignored_lints: Default::default(),
             url: Url::parse("https://example.net").unwrap(),
+            version: None,
         }
     }
 }
